@@ -27,6 +27,9 @@ theorem poll_phase_match :
     summarised by `Gen.Loop.tchanUnrootCb`) -/
 theorem root_sites_match : Gen.Loop.rootSites.filter (fun x => !isTchanRelease x) = rootSpec := by decide
 
+/-- janet_stream_close notifies the read-side and the write-side fiber as the model's `streamCloseEvents` says -/
+theorem stream_close_match : Gen.Loop.streamCloseNotify = closeSpec Gen.Loop.closeNotifiesBoth := by decide
+
 /-! ## invariants -/
 
 /-- `listener_count` = suspended tasks + stream listeners + posted, undelivered events (+ NULL-callback events, whose
@@ -210,6 +213,11 @@ theorem step_inv (cfg : Cfg) {s s' : St} {e : Ev} (hi : Inv s) (h : step cfg s e
     by_cases h1 : t ∈ s.timers
     · rw [if_pos h1] at h; simp at h; subst h; exact ⟨hc, hk, hr⟩
     · rw [if_neg h1] at h; simp at h
+  | streamClosed n =>
+    simp only [step] at h
+    by_cases h1 : s.orphanLis + n ≤ s.lis
+    · rw [if_pos h1] at h; simp at h; subst h; exact ⟨hc, hk, hr⟩
+    · rw [if_neg h1] at h; simp at h
 
 theorem run_inv (cfg : Cfg) : ∀ (evs : List Ev) {s s' : St}, Inv s → run cfg s evs = some s' → Inv s'
   | [], s, s', hi, h => by simp [run] at h; subst h; exact hi
@@ -332,6 +340,117 @@ theorem collected_suspended_task_keeps_count (cfg : Cfg) :
     ∃ s, run cfg init [.sched 1, .pop 1, .ran 1 true, .gcFiber 1] = some s ∧ s.lc = 1 ∧ loopDone s = false := by
   refine ⟨{ init with lc := 1, susp := [1] }, ?_, rfl, ?_⟩
   · simp [run, step, init]
+  · simp [loopDone, init]
+
+/-! ## listeners left behind by a close -/
+
+/-- orphaned listeners are listeners -/
+theorem orphan_le_lis (cfg : Cfg) : ∀ (evs : List Ev) {s s' : St}, s.orphanLis ≤ s.lis → run cfg s evs = some s' → s'.orphanLis ≤ s'.lis
+  | [], s, s', h0, h => by simp [run] at h; subst h; exact h0
+  | e :: es, s, s', h0, h => by
+    simp only [run] at h
+    cases hs : step cfg s e with
+    | none => rw [hs] at h; simp at h
+    | some s1 =>
+      rw [hs] at h
+      refine orphan_le_lis cfg es ?_ h
+      cases e <;> simp only [step] at hs
+      case aend =>
+        by_cases h1 : s.lis = 0
+        · rw [if_pos h1] at hs; simp at hs
+        · rw [if_neg h1] at hs; simp at hs; subst hs; simp only; omega
+      case gcListener =>
+        by_cases h1 : s.lis = 0
+        · rw [if_pos h1] at hs; simp at hs
+        · rw [if_neg h1] at hs; simp at hs; subst hs; simp only; omega
+      case astart => simp at hs; subst hs; simp only; omega
+      case streamClosed n =>
+        by_cases h1 : s.orphanLis + n ≤ s.lis
+        · rw [if_pos h1] at hs; simp at hs; subst hs; simp only; omega
+        · rw [if_neg h1] at hs; simp at hs
+      case deliverChan =>
+        by_cases h1 : s.posted = 0 ∨ s.tchanPending = 0
+        · rw [if_pos h1] at hs; simp at hs
+        · rw [if_neg h1] at hs
+          by_cases h2 : cfg.tchanUnroot = true
+          · rw [if_pos h2] at hs; simp at hs; subst hs; exact h0
+          · rw [if_neg h2] at hs; simp at hs; subst hs; exact h0
+      case deliverNull =>
+        by_cases h1 : s.postedNull = 0
+        · rw [if_pos h1] at hs; simp at hs
+        · rw [if_neg h1] at hs
+          by_cases h2 : cfg.nullDec = true
+          · rw [if_pos h2] at hs; simp at hs; subst hs; exact h0
+          · rw [if_neg h2] at hs; simp at hs; subst hs; exact h0
+      case pop f =>
+        by_cases h1 : f ∈ s.runq
+        · rw [if_pos h1] at hs
+          by_cases h2 : f ∈ s.susp
+          · rw [if_pos h2] at hs; simp at hs; subst hs; exact h0
+          · rw [if_neg h2] at hs; simp at hs; subst hs; exact h0
+        · rw [if_neg h1] at hs; simp at hs
+      case ran f b =>
+        cases b
+        · simp at hs; subst hs; exact h0
+        · by_cases h2 : f ∈ s.susp
+          · simp [h2] at hs
+          · simp [h2] at hs; subst hs; exact h0
+      case post b => cases b <;> (simp at hs; subst hs; exact h0)
+      all_goals first
+        | (simp at hs; subst hs; exact h0)
+        | (split at hs <;> simp at hs; subst hs; exact h0)
+
+/-- ★ when the close notifies both sides (`Gen.Loop.closeNotifiesBoth`), closing a stream with a parked reader and / or writer ends
+    exactly those listeners and leaves nobody behind — for every combination of parked sides -/
+theorem streamClose_releases_all (cfg : Cfg) (hcfg : cfg.closeBoth = true) (r w : Bool) {s s' : St}
+    (hl : s.orphanLis + (if r then 1 else 0) + (if w then 1 else 0) ≤ s.lis)
+    (h : run cfg s (streamCloseEvents cfg r w) = some s') :
+    s'.orphanLis = s.orphanLis ∧ s'.lis + (if r then 1 else 0) + (if w then 1 else 0) = s.lis ∧
+      s'.lc + (if r then 1 else 0) + (if w then 1 else 0) = s.lc := by
+  unfold streamCloseEvents at h
+  rw [if_pos hcfg] at h
+  cases r <;> cases w
+  · simp at hl
+    simp [run, step, hl] at h
+    subst h; simp
+  · simp at hl
+    have h1 : s.lis ≠ 0 := by omega
+    have m1 : min s.orphanLis (s.lis - 1) ≤ s.lis - 1 := Nat.min_le_right _ _
+    simp [run, step, h1, m1] at h
+    subst h; simp; omega
+  · simp at hl
+    have h1 : s.lis ≠ 0 := by omega
+    have m1 : min s.orphanLis (s.lis - 1) ≤ s.lis - 1 := Nat.min_le_right _ _
+    simp [run, step, h1, m1] at h
+    subst h; simp; omega
+  · simp at hl
+    have h1 : s.lis ≠ 0 := by omega
+    have h2 : s.lis - 1 ≠ 0 := by omega
+    have m3 : min s.orphanLis (s.lis - 1 - 1) ≤ s.lis - 1 - 1 := Nat.min_le_right _ _
+    simp [run, step, h1, h2, m3] at h
+    subst h; simp; omega
+
+/-- an orphaned listener keeps the loop from ever finishing, and (when it is all that is left) nothing can wake the loop -/
+theorem orphan_listener_never_done (cfg : Cfg) (evs : List Ev) {s : St} (h : run cfg init evs = some s) (ho : 0 < s.orphanLis) :
+    loopDone s = false := by
+  have hc := (run_inv cfg evs inv_init h).1
+  unfold CounterInv at hc
+  have hle := orphan_le_lis cfg evs (s := init) (by simp [init]) h
+  cases hd : loopDone s with
+  | false => rfl
+  | true =>
+    obtain ⟨_, _, hl⟩ := (loopDone_iff s).1 hd
+    omega
+
+/-- with `else if` (seeded change in janet_stream_close): reader and writer parked on one stream, a third task closes it —
+    only the reader is released; the writer's listener stays, nothing can wake the loop, and the loop is never done -/
+theorem close_with_two_listeners_orphans_writer (cfg : Cfg) (hcfg : cfg.closeBoth = false) :
+    ∃ s, run cfg init ([.sched 1, .pop 1, .astart, .ran 1 true, .sched 2, .pop 2, .astart, .ran 2 true] ++
+        streamCloseEvents cfg true true ++ [.sched 1, .pop 1, .ran 1 false]) = some s ∧
+      s.orphanLis = 1 ∧ s.lis = 1 ∧ s.susp = [2] ∧ canWake s false = false ∧ loopDone s = false := by
+  refine ⟨{ init with lc := 2, susp := [2], lis := 1, roots := 1, orphanLis := 1 }, ?_, rfl, rfl, rfl, ?_, ?_⟩
+  · simp [run, step, init, streamCloseEvents, hcfg]
+  · simp [canWake, init]
   · simp [loopDone, init]
 
 /-! ## stale timers -/
